@@ -422,6 +422,31 @@ class MergeStats(_Inferral):
         return "merge equal statistics"
 
 
+class RenameStats(_Inferral):
+    """Same class with the statistics renamed k_i -> r_(n-1-i): the names change *and* the
+    positions in the parameter tuples are reversed (names are kept sorted)."""
+
+    @staticmethod
+    def _plan(c):
+        names = [k for k, _ in c.stats]
+        if not names or not all(k.startswith("k_") for k in names):
+            return None
+        n = len(names)
+        return {k: f"r_{n - 1 - i}" for i, k in enumerate(names)}
+
+    def decomposition_function(self, c):
+        plan = self._plan(c)
+        if plan is None:
+            return None
+        return (c.with_(stats=[(plan[k], letters) for k, letters in c.stats]),)
+
+    def extra_parameters(self, c, children=None):
+        return (self._plan(c),)
+
+    def formal_step(self):
+        return "rename statistics"
+
+
 class ExpandFactory(StrategyFactory[WC]):
     """mode 0: yields strategies; 1: yields ready rules; 2: additionally the Expand rule
     of the class whose prefix is one letter shorter (a rule whose parent is another class);
@@ -597,7 +622,8 @@ def make_pack(opts=None):
         expand = Expand(drop=o["drop"], order=o["order"], plus=o["plus"])
     else:
         expand = ExpandFactory(mode=o["factory"], drop=o["drop"], plus=o["plus"])
-    inf_map = {"minimise": MinimisePatterns, "deadstat": DropDeadStat, "merge": MergeStats}
+    inf_map = {"minimise": MinimisePatterns, "deadstat": DropDeadStat, "merge": MergeStats,
+               "rename": RenameStats}
     inferral = [inf_map[name]() for name in o["inferral"]]
     if o["layout"] == "initial":
         initial, sets = [remove], [[expand]]
